@@ -177,5 +177,128 @@ theorem sorted_prefix_mean (z : List K) (hs : z.Pairwise (· ≤ ·)) (i : ℕ) 
   rw [hc] at h2
   nlinarith [mul_le_mul_of_nonneg_left h1 hnpos, mul_le_mul_of_nonneg_left h2 hipos]
 
+theorem list_sum_eq_zero_iff (l : List K) (h : ∀ x ∈ l, 0 ≤ x) : l.sum = 0 ↔ ∀ x ∈ l, x = 0 := by
+  induction l with
+  | nil => simp
+  | cons a as ih =>
+    have ha : 0 ≤ a := h a List.mem_cons_self
+    have has : ∀ x ∈ as, 0 ≤ x := fun x hx => h x (List.mem_cons_of_mem _ hx)
+    have hs : 0 ≤ as.sum := List.sum_nonneg has
+    rw [List.sum_cons]
+    constructor
+    · intro h0
+      have h1 : a = 0 := by linarith
+      have h2 : as.sum = 0 := by linarith
+      intro x hx
+      rcases List.mem_cons.mp hx with rfl | hx'
+      · exact h1
+      · exact (ih has).mp h2 x hx'
+    · intro hall
+      rw [hall a List.mem_cons_self, (ih has).mpr (fun x hx => hall x (List.mem_cons_of_mem _ hx))]
+      ring
+
+/-- the pairwise sum vanishes exactly for constant samples -/
+theorem giniNum_eq_zero_iff (y : List K) : giniNum y = 0 ↔ ∀ a ∈ y, ∀ b ∈ y, a = b := by
+  unfold giniNum
+  have hrow : ∀ a, 0 ≤ giniRowSum y a := by
+    intro a
+    unfold giniRowSum
+    apply List.sum_nonneg
+    intro w hw
+    obtain ⟨b, _, rfl⟩ := List.mem_map.mp hw
+    rw [absv_eq_abs]; exact abs_nonneg _
+  rw [list_sum_eq_zero_iff _ (by intro v hv; obtain ⟨a, _, rfl⟩ := List.mem_map.mp hv; exact hrow a)]
+  constructor
+  · intro h a ha b hb
+    have h1 : giniRowSum y a = 0 := h _ (List.mem_map.mpr ⟨a, ha, rfl⟩)
+    unfold giniRowSum at h1
+    rw [list_sum_eq_zero_iff _ (by intro w hw; obtain ⟨c, _, rfl⟩ := List.mem_map.mp hw; rw [absv_eq_abs]; exact abs_nonneg _)] at h1
+    have h2 := h1 _ (List.mem_map.mpr ⟨b, hb, rfl⟩)
+    rw [absv_eq_abs, abs_eq_zero, sub_eq_zero] at h2
+    exact h2
+  · intro h v hv
+    obtain ⟨a, ha, rfl⟩ := List.mem_map.mp hv
+    unfold giniRowSum
+    rw [list_sum_eq_zero_iff _ (by intro w hw; obtain ⟨c, _, rfl⟩ := List.mem_map.mp hw; rw [absv_eq_abs]; exact abs_nonneg _)]
+    intro w hw
+    obtain ⟨b, hb, rfl⟩ := List.mem_map.mp hw
+    rw [h a ha b hb, sub_self, absv_eq_abs, abs_zero]
+
+/-- the last trapezoid already contains the total: `trapSum 0 l ≥ Σ l` for a non-negative sample, and the excess
+    is `Σ_{i<n−1}(s_i + s_{i+1}) + s_{n−1}` -/
+theorem trapSum_ge_total (l : List K) (hl : ∀ v ∈ l, 0 ≤ v) (hne : l ≠ []) : l.sum ≤ trapSum 0 l := by
+  obtain ⟨m, hm⟩ : ∃ m, l.length = m + 1 := ⟨l.length - 1, by
+    have : 0 < l.length := List.length_pos_iff.mpr hne
+    omega⟩
+  unfold trapSum
+  rw [hm, Finset.sum_range_succ]
+  have hall := cumsumFrom_nonneg 0 l (le_refl _) hl
+  have h1 : 0 ≤ ∑ i ∈ Finset.range m, ((0 :: cumsumFrom 0 l).getD i 0 + (0 :: cumsumFrom 0 l).getD (i + 1) 0) := by
+    apply Finset.sum_nonneg
+    intro i _
+    exact add_nonneg (getD_nonneg_of_all _ hall i) (getD_nonneg_of_all _ hall (i + 1))
+  have h2 : 0 ≤ (0 :: cumsumFrom 0 l).getD m 0 := getD_nonneg_of_all _ hall m
+  have h3 : (0 :: cumsumFrom 0 l).getD (m + 1) 0 = l.sum := by
+    have := cumsum_last (0 : K) l
+    rw [hm, zero_add] at this
+    exact this
+  rw [h3]
+  linarith
+
+/-- equality in `trapSum_ge_total`: exactly when every entry except the last one is zero -/
+theorem trapSum_eq_total_iff (l : List K) (hl : ∀ v ∈ l, 0 ≤ v) (hne : l ≠ []) :
+    trapSum 0 l = l.sum ↔ ∀ i, i + 1 < l.length → l.getD i 0 = 0 := by
+  obtain ⟨m, hm⟩ : ∃ m, l.length = m + 1 := ⟨l.length - 1, by
+    have : 0 < l.length := List.length_pos_iff.mpr hne
+    omega⟩
+  have hall := cumsumFrom_nonneg 0 l (le_refl _) hl
+  have hs : ∀ i, 0 ≤ (0 :: cumsumFrom 0 l).getD i 0 := fun i => getD_nonneg_of_all _ hall i
+  have hlast : (0 :: cumsumFrom 0 l).getD (m + 1) 0 = l.sum := by
+    have := cumsum_last (0 : K) l
+    rw [hm, zero_add] at this
+    exact this
+  have hsplit : trapSum 0 l = ∑ i ∈ Finset.range m, ((0 :: cumsumFrom 0 l).getD i 0 + (0 :: cumsumFrom 0 l).getD (i + 1) 0)
+      + (0 :: cumsumFrom 0 l).getD m 0 + l.sum := by
+    unfold trapSum
+    rw [hm, Finset.sum_range_succ, hlast]
+    ring
+  have hsumnn : 0 ≤ ∑ i ∈ Finset.range m, ((0 :: cumsumFrom 0 l).getD i 0 + (0 :: cumsumFrom 0 l).getD (i + 1) 0) :=
+    Finset.sum_nonneg (fun i _ => add_nonneg (hs i) (hs (i + 1)))
+  rw [hm]
+  constructor
+  · intro h i hi
+    have hi' : i < m := by omega
+    have h0 : ∑ i ∈ Finset.range m, ((0 :: cumsumFrom 0 l).getD i 0 + (0 :: cumsumFrom 0 l).getD (i + 1) 0) = 0 := by
+      have := hs m
+      linarith
+    have hterm := (Finset.sum_eq_zero_iff_of_nonneg (fun i _ => add_nonneg (hs i) (hs (i + 1)))).mp h0 i
+      (Finset.mem_range.mpr hi')
+    have ha : (0 :: cumsumFrom 0 l).getD i 0 = 0 := by have := hs i; have := hs (i + 1); linarith
+    have hb : (0 :: cumsumFrom 0 l).getD (i + 1) 0 = 0 := by have := hs i; have := hs (i + 1); linarith
+    have hstep := cumsum_step (0 : K) l i (by omega)
+    rw [ha, hb] at hstep
+    linarith
+  · intro h
+    have hzero : ∀ i, i ≤ m → (0 :: cumsumFrom 0 l).getD i 0 = 0 := by
+      intro i hi
+      rw [cumsum_getD_take 0 l i (by omega), zero_add]
+      apply List.sum_eq_zero
+      intro x hx
+      obtain ⟨j, hj, rfl⟩ := List.getElem_of_mem hx
+      have hjl : j < i := by
+        have : (l.take i).length ≤ i := by simp
+        omega
+      rw [List.getElem_take]
+      have := h j (by omega)
+      rw [List.getD_eq_getElem _ _ (by omega)] at this
+      exact this
+    rw [hsplit, hzero m (le_refl _)]
+    have : ∑ i ∈ Finset.range m, ((0 :: cumsumFrom 0 l).getD i 0 + (0 :: cumsumFrom 0 l).getD (i + 1) 0) = 0 := by
+      apply Finset.sum_eq_zero
+      intro i hi
+      have hi' : i < m := Finset.mem_range.mp hi
+      rw [hzero i (by omega), hzero (i + 1) (by omega)]; ring
+    rw [this]; ring
+
 end
 end QE.C19
